@@ -78,7 +78,7 @@ Proof.
     destruct Ha as [[Hl Hc] | Hg].
     - assert (HTd : T (acell a) = false).
       { destruct (T (acell a)) eqn:X; auto.
-        rewrite (e_closed _ _ _ _ E (acell a) c (or_introl X) Hl (not_none_some _ _ Hf)) in Hd.
+        rewrite (e_closed _ _ _ _ E (acell a) c (or_introl (conj X Hc)) Hl (not_none_some _ _ Hf)) in Hd.
         discriminate. }
       split.
       + rewrite (e_val _ _ _ _ E _ HTd). reflexivity.
